@@ -121,7 +121,7 @@ def run_real(desc):
 
     minor.solve_minor_model = wrapped
     try:
-        res = minor.estimate_minor(gene, cov, major_sols, "cbc", max_solutions=desc.get("max_solutions", 1)) if major_sols else []
+        res = minor.estimate_minor(gene, cov, major_sols, "cbc", max_solutions=desc.get("max_solutions", 1), **({"novel": True} if desc.get("novel") else {})) if major_sols else []
     finally:
         minor.solve_minor_model = orig
     return {"gene": gene, "gid": gid, "prof": prof, "cn_sol": cn_sol, "cov": cov, "major_sols": major_sols, "calls": calls, "result": res}
